@@ -21,6 +21,7 @@ type SpecEnv struct {
 	vc      *VC
 	st      *State
 	old     *State
+	pre     *State // start of the current loop iteration (loop step clauses only)
 	vars    map[string]TV
 	scope   *types.Scope // innermost Go scope for identifier lookup (may be nil)
 	pos     token.Pos
@@ -522,6 +523,21 @@ func (env *SpecEnv) evalCall(e *SExpr) TV {
 				env.fail(e, "no call of "+e.Args[0].Name+" recorded on any path to this point")
 			}
 			return TV{t, vc.ghostTypes[gk]}
+		}
+		if name == "pre" {
+			if env.pre == nil {
+				env.fail(e, "pre() is only available in a loop step clause")
+			}
+			n := env.inState(env.pre)
+			n.vars = map[string]TV{}
+			for k, v := range env.vars {
+				n.vars[k] = v
+			}
+			// ghost variables and call records as they were at the start of the iteration
+			for k, t := range env.pre.ghost {
+				n.vars[k] = TV{t, env.vc.ghostTypes[k]}
+			}
+			return n.eval(e.Args[0])
 		}
 		switch name {
 		case "old":
